@@ -887,6 +887,11 @@ impl MerkleTree {
                     instructions.push(instruction);
                 }
                 Either::Right(node) => {
+                    if !instructions.is_empty() {
+                        // The length of an earlier root is not known yet: nothing can be
+                        // decided about this one before the missing nodes are read.
+                        continue;
+                    }
                     if bytes == node.length {
                         return Ok(Either::Right(root));
                     }
@@ -999,6 +1004,11 @@ impl MerkleTree {
                     }
                 }
             }
+        }
+        if !instructions.is_empty() {
+            // Offset or length of the root are not known yet, `bytes` is not relative to
+            // the root: read the missing nodes first.
+            return Ok(Either::Left(instructions));
         }
         let instructions_or_result = self.seek_trusted_tree(root, bytes, nodes)?;
         match instructions_or_result {
